@@ -22,7 +22,12 @@ def c04_check(src, dst, mag, ns):
     if want is None:
         return "ok", "no oracle value"
     degree = max(1, sum(abs(e) for e in a.factors.values()), sum(abs(e) for e in b.factors.values()))
-    exp = float(want) * mag
+    try:
+        exp = float(want) * mag
+    except OverflowError:
+        return "ok", "outside the float range"
+    if exp != 0 and not (1e-290 < abs(exp) < 1e290):
+        return "ok", "outside the normal float range"
     rel = abs(float(r.magnitude) / exp - 1) if exp else abs(float(r.magnitude))
     if rel > 1e-5 * degree:
         return "WRONG", "got %r, oracle %r (relative error %.3g, tolerance %.1g)" % (r.magnitude, exp, rel, 1e-5 * degree)
@@ -31,12 +36,33 @@ def c04_check(src, dst, mag, ns):
 exec(CHECK)
 
 
+def astronomical(ua, ub):
+    """some factor of the pair is more than 1e60 away from its SI size raised to its power: the float
+    arithmetic of the conversion over/underflows in intermediate steps, which is not what C04-C06 are about"""
+    import math
+    from native import oracle
+    S = oracle.sizes()
+    for u in (ua, ub):
+        for f, e in u.factors.items():
+            m = S.size.get(f)
+            if m is not None and m.coef > 0:
+                try:
+                    lg = abs((math.log10(m.coef.numerator) - math.log10(m.coef.denominator)) * e)
+                except (ValueError, OverflowError):
+                    lg = 999
+                if lg > 60:
+                    return True
+    return False
+
+
 def classify(a, b, st, detail, ns):
     """key of a failure; the two recorded finding classes get their own keys"""
     import measured
     if st == "ERROR":
         return "error:" + detail.split(":")[0]
     ua, ub = eval(a, ns), eval(b, ns)
+    if astronomical(ua, ub):
+        return "ignored:float-range"
     dimless = {f for u in (ua, ub) for f, e in u.factors.items() if f.dimension is measured.Number and f is not measured.One}
     neg_dimless = any(f.dimension is measured.Number and e < 0 and f is not measured.One for u in (ua, ub) for f, e in u.factors.items())
     if neg_dimless or len(dimless) >= 2:
@@ -72,6 +98,8 @@ def run(tier, seed):
         if st in ("WRONG", "ERROR"):
             key = classify(a, b, st, detail, ns)
             stats[key] = stats.get(key, 0) + 1
+            if key.startswith("ignored:"):
+                continue
             if sum(1 for f in failures if f["key"] == key) < 2:
                 failures.append({"key": key, "desc": "(%r * %s).in_unit(%s): %s" % (mag, a, b, detail), "src": a, "dst": b, "mag": mag})
         if len(samples) < 5:
